@@ -52,6 +52,7 @@ var queries = []query{
 	// end-to-end stream only (the fake factory's iterators carry no records): a filtered and a time-ranged cursor
 	{"select from p=b where msg contains \"m\" limit 10", []int{1}, "parts"},
 	{"select from p=c OR p=d range [\"0\":\"999999\"] limit 10", []int{2, 3}, "parts"},
+	{"SELECT FROM p=a LIMIT 10", []int{0}, "parts"}, // query 0 spelled differently: another query for ApplyState (strings are compared)
 }
 
 type reqInfo struct {
@@ -1614,15 +1615,16 @@ func main() {
 			c.Add(*runStress(c.Rng.U64(), 6, 300, i%2 == 1))
 		}
 		// 6. end to end: request sequences through the real ServerQuerier (rpc) and backend.Querier, provider observed
-		ne := c.N(24)
-		erps := make([]E2EReplay, ne)
-		for i := range erps {
-			erps[i] = E2EReplay{Kind: "e2e", Seed: c.Rng.U64(), Max: c.Rng.PickInt(2, 3, 1000, 1000), End: c.Rng.PickStr("sweep", "sweep", "stop", "cancel-stop")}
+		erps := e2eCorpus()
+		nfixed := len(erps)
+		for i := 0; i < c.N(24); i++ {
+			erps = append(erps, E2EReplay{Kind: "e2e", Seed: c.Rng.U64(), Max: c.Rng.PickInt(2, 3, 1000, 1000), End: c.Rng.PickStr("sweep", "sweep", "stop", "cancel-stop")})
 		}
+		ne := len(erps)
 		eres := make([]*Case, ne)
 		eerr := make([]error, ne)
 		Parallel(ne, 6, func(i int) {
-			eres[i], eerr[i] = runE2E(erps[i], false)
+			eres[i], eerr[i] = runE2E(erps[i], i < nfixed)
 		})
 		for i := range erps {
 			if eerr[i] != nil {
